@@ -21,6 +21,9 @@ RULE = ("cases = (routine, rows, length, polarity) 1-D operators and (HxW, J, le
 
 
 def run(rep):
+    if rep.tier == "thorough":
+        from .. import apalache
+        apalache.shape_lemmas(rep)
     fnd = Findings()
     res1, tab = dtlib.run_dt1(rep, rep.tier)
     dtchecks.one_dim_replay(rep, fnd, tab, "C03", kinds=("colfilter", "coldfilt"))
